@@ -343,10 +343,39 @@ def gen_games(rng, thorough):
             for r in A:
                 r[j] = r[j2]                                         # duplicated column
         games.append((A, "int<=4x4"))
-    for _ in range(300 if thorough else 60):
+    for _ in range(300 if thorough else 40):
         m, n = rng.randrange(2, 9), rng.randrange(2, 9)
         A = [[frac(round(rng.uniform(-3, 3), 3)) for _ in range(n)] for _ in range(m)]
-        games.append((A, "real<=8x8"))
+        games.append((A, "real:mixed-sign<=8x8"))
+    # real-valued families (the exact binary value of every float is what model and oracle see)
+    fams = ["real:U(0,1)", "real:positive,first-column<1", "real:positive,first-column-small", "real:dyadic-positive<1",
+            "real:small-denominators", "real:normal", "real:positive>1", "real:nonneg-with-zero"]
+    for t in range(900 if thorough else 170):
+        fam = fams[t % len(fams)]
+        m, n = rng.randrange(1, 9), rng.randrange(1, 9)
+        if rng.random() < 0.5:
+            m, n = rng.randrange(1, 5), rng.randrange(1, 5)
+        if fam == "real:U(0,1)":
+            A = [[frac(rng.random() or 0.5) for _ in range(n)] for _ in range(m)]
+        elif fam == "real:positive,first-column<1":
+            A = [[frac(rng.uniform(0.05, 0.95)) if j == 0 else frac(rng.uniform(0.05, 5)) for j in range(n)] for _ in range(m)]
+        elif fam == "real:positive,first-column-small":
+            A = [[frac(rng.uniform(1e-3, 0.2)) if j == 0 else frac(round(rng.uniform(0.5, 3), 2)) for j in range(n)] for _ in range(m)]
+        elif fam == "real:dyadic-positive<1":
+            A = [[Fraction(rng.randrange(1, 16), 16) for _ in range(n)] for _ in range(m)]
+        elif fam == "real:small-denominators":
+            A = [[frac(float(Fraction(rng.randrange(1, 7), rng.choice([3, 5, 7])))) for _ in range(n)] for _ in range(m)]
+        elif fam == "real:normal":
+            A = [[frac(rng.gauss(0, 1)) for _ in range(n)] for _ in range(m)]
+        elif fam == "real:positive>1":
+            A = [[frac(rng.uniform(1.01, 4)) for _ in range(n)] for _ in range(m)]
+        else:
+            A = [[frac(rng.choice([0.0, rng.random(), rng.uniform(0, 3)])) for _ in range(n)] for _ in range(m)]
+        games.append((A, fam))
+    # fixed instances: strictly positive, first column entirely below 1 (the maximum of column 0 is not in row 0)
+    for A in ([[0.5, 0.2], [0.1, 0.6]], [[0.1, 0.6], [0.5, 0.2]], [[0.2, 0.9, 0.4], [0.7, 0.1, 0.3], [0.4, 0.5, 0.8]],
+              [[0.25, 0.75], [0.5, 0.125], [0.75, 0.25]], [[0.3], [0.6], [0.2]], [[0.3, 0.6, 0.2]]):
+        games.append(([[frac(v) for v in r] for r in A], "real:fixed-positive,first-column<1"))
     return games
 
 
@@ -422,12 +451,22 @@ def run(ctx):
     fea_tol = Fraction(1, 10**6)
     for A, tag in games:
         mi = 1000
-        out = run_minmax(A, mi)
         m, n = len(A), len(A[0])
+        try:
+            out = run_minmax(A, mi)
+            if any(v != v or abs(v) == math.inf for v in [out[0]] + out[1] + out[2]):
+                raise ArithmeticError("non-finite output %r" % (out,))
+        except Exception as e:          # any exception / non-finite value on a valid payoff matrix violates the property
+            ctx.case(("minmax", tuple(map(tuple, A))), nontrivial=(m >= 2 and n >= 2))
+            ctx.count("minmax:" + tag)
+            ctx.count("minmax_exception")
+            ctx.fail("minmax_exception", "minmax raised %s on a valid payoff matrix" % repr(e)[:200], {"A": A, "tag": tag}, repr(e)[:300], None)
+            continue
         ctx.case(("minmax", tuple(map(tuple, A))), nontrivial=(m >= 2 and n >= 2),
                  sample={"minmax": A, "impl": {"v": out[0], "x": out[1], "y": out[2]}})
         ctx.count("minmax:" + tag)
-        ctx.count("minmax_shape=%dx%d" % (m, n) if tag != "real<=8x8" else "minmax_shape=real")
+        ctx.count("minmax_shape=%dx%d" % (m, n) if not tag.startswith("real") else "minmax_shape=real:%s" % ("<=4x4" if max(m, n) <= 4 else "<=8x8"))
+        ctx.count("minmax_strictly_positive_first_column<1:" + ("yes" if all(a > 0 for r in A for a in r) and all(r[0] < 1 for r in A) else "no"))
         for kind, what in minmax_oracle(A, out, TOL if not tag.startswith("real") else fea_tol):
             ctx.fail(kind, what, {"A": A, "tag": tag}, {"v": out[0], "x": out[1], "y": out[2]}, None)
         cases.append(coq_mm(A, mi, out))
@@ -457,9 +496,12 @@ def replay(data):
     fr = lambda rows: [[Fraction(x) for x in r] for r in rows]
     if "A" in inp:
         A = fr(inp["A"])
-        out = run_minmax(A)
-        print("implementation: v=%r x=%s y=%s" % out)
-        fails = minmax_oracle(A, out, TOL if not str(inp.get("tag", "")).startswith("real") else Fraction(1, 10**6))
+        try:
+            out = run_minmax(A)
+            print("implementation: v=%r x=%s y=%s" % out)
+            fails = minmax_oracle(A, out, TOL if not str(inp.get("tag", "")).startswith("real") else Fraction(1, 10**6))
+        except Exception as e:
+            fails = [("minmax_exception", "minmax raised %r on a valid payoff matrix" % (e,))]
     else:
         lp = dict(c=[Fraction(x) for x in inp["c"]], A_ub=fr(inp["A_ub"]), b_ub=[Fraction(x) for x in inp["b_ub"]],
                   A_eq=fr(inp["A_eq"]), b_eq=[Fraction(x) for x in inp["b_eq"]], max_iter=inp.get("max_iter", 1000), tag=inp.get("tag", ""))
